@@ -134,6 +134,11 @@ def run(ctx, which=None):
     for it, clause, detail in fails:
         if done.get(clause, 0) >= 3:
             continue
+        tries = getattr(ctx, '_tries', None) or {}
+        ctx._tries = tries
+        tries[clause] = tries.get(clause, 0) + 1
+        if tries[clause] > 12:
+            continue    # enough attempts to reproduce this clause
         again = validate(ctx, [dict(it, id="re")], which)
         if again and again[0][1] == clause:
             done[clause] = done.get(clause, 0) + 1
